@@ -14,7 +14,8 @@ def main(argv=None):
     # handle_close: a worker about to hand a file wrapper to the channel must see the teardown (C09-disconnected-before-the-lock-is-released)
     # _flush_some: a drained buffer taken off the output queue (possibly the application's file wrapper) is closed by the flusher, in both roles
     res2 = chanworld.run(ck, [("channel.HTTPChannel.service", "W"), ("channel.HTTPChannel.handle_close", "IO"),
-                              ("channel.HTTPChannel._flush_some", "IOL"), ("channel.HTTPChannel._flush_some", "W")])
+                              ("channel.HTTPChannel._flush_some", "IOL"), ("channel.HTTPChannel._flush_some", "W"),
+                              ("channel.HTTPChannel.write_soon", "W")])
     world.report(ck, res2, select=lambda n: any(p in n for p in ("C09", "raises:BaseException", "raises:Exception", "raises:ClientDisconnected", "coverage",
                                                                  "R6:no-dispatch-when-disconnected")))
     res3 = world.run_functions(ck, ["dispatcher"], ["task.ThreadedTaskDispatcher.handler_thread"], timeout=20, hooks_mod="contracts.dispatcher")
